@@ -51,3 +51,12 @@ Definition split_peak (t dt area min_area orig_dt : Z) (splits : list Z) : res (
 Definition split_peak_local_minimum (t dt area min_area orig_dt : Z) (w : list Z) (mh mr : Z)
   : res (bool * list child) :=
   split_peak t dt area min_area orig_dt (lms_split_points w mh mr).
+
+(* NaturalBreaksSplitter.find_split_points (repaired, /repo commit 8263a29: closes with len(w)).
+   The goodness-of-split floats are not modelled: max_i = argmax(gofs) and
+   accept = (gofs[max_i] > threshold[peak_i]) are inputs. *)
+Definition nbs_split_points (w : list Z) (max_i : Z) (accept : bool) : list Z :=
+  if accept then [max_i; zlen w] else [].
+Definition split_peak_natural_breaks (t dt area min_area orig_dt : Z) (w : list Z) (max_i : Z)
+           (accept : bool) : res (bool * list child) :=
+  split_peak t dt area min_area orig_dt (nbs_split_points w max_i accept).
